@@ -75,10 +75,14 @@ def c11wf(P):
 def c11reuse(P):
     return [{"harness": "vxH11Reuse", "args": ["true" if rf else "false"], "files": KIT + ["c11"], "preempt": P, "race": True, "reach": ["done"], "timeout_s": 1500,
              "bounds": f"fid 1 clunked while a Tstat on it is held in the implementation, the number bound again by a Twalk, then the hang-up {'after' if rf else 'before'} the held request returns; <= {P} preemptions"} for rf in (True, False)]
-w("C11", {"quick": c11wf(1) + c11reuse(1) + c11([(0,0,0,0,0,False), (2,1,0,0,0,False), (2,1,1,0,0,True), (1,1,2,0,1,False), (1,2,2,1,0,False)], 1),
- "thorough": c11wf(2) + c11reuse(2) + c11([(nf,w_,k0,k1,mp,mid) for nf in (0,1,2) for (w_,k0,k1) in ((0,0,0),(1,0,0),(1,1,0),(1,2,0),(2,0,1),(2,2,1)) for mp in (0,1) for mid in (False,True) if not (nf == 0 and k0 == 1)], 1),
+def c11ufs():
+    return [{"harness": "vxH11Ufs", "args": [], "files": ["api", "ref_wire", "kit_srv", "kit_net", "kit_fs", "ufs_c11"], "preempt": 0, "free_switches": -1, "reach": ["done"],
+             "bounds": "Ufs (9P2000.u) on the model file system: a file and a directory open through two fids, a hard-link create (DMLINK) onto an existing or a free name, naming a valid or an unknown fid, then the hang-up: every descriptor closed exactly once; deterministic schedule"}]
+w("C11", {"quick": c11wf(1) + c11reuse(1) + c11ufs() + c11([(0,0,0,0,0,False), (2,1,0,0,0,False), (2,1,1,0,0,True), (1,1,2,0,1,False), (1,2,2,1,0,False)], 1),
+ "thorough": c11wf(2) + c11reuse(2) + c11ufs() + c11([(nf,w_,k0,k1,mp,mid) for nf in (0,1,2) for (w_,k0,k1) in ((0,0,0),(1,0,0),(1,1,0),(1,2,0),(2,0,1),(2,2,1)) for mp in (0,1) for mid in (False,True) if not (nf == 0 and k0 == 1)], 1),
  "outside": ["more than 2 requests executing at the disconnect, more than 1 preemption", "write errors other than one stalled-then-failing Write"],
- "assumptions": [SCHED]})
+ "assumptions": [SCHED, "rewrite_os: native replays of the Ufs run redirect os calls to the model file system"],
+ "rewrite_os": True})
 
 # ---------------- C06 ----------------
 TT = [100, 102, 104, 108, 110, 112, 114, 116, 118, 120, 122, 124, 126]
